@@ -318,7 +318,40 @@ func justify(j justCtx, conds []Guard, src ssa.Value, target ssa.CallInstruction
 		x, op, y, ok := CmpGuard(g)
 		if ok && (op == token.GEQ || op == token.GTR) {
 			if k, isc := ConstInt(y); isc && (k == 0 && op == token.GEQ || k == -1 && op == token.GTR) {
-				return DependsOn(x, func(v ssa.Value) bool {
+				// the policy must have been asked in this iteration (for this command): a delay carried
+				// over from an earlier command of the batch is not a consent for this one
+				carried := false
+				seenv := map[ssa.Value]bool{}
+				var flow func(v ssa.Value)
+				flow = func(v ssa.Value) {
+					if v == nil || seenv[v] {
+						return
+					}
+					seenv[v] = true
+					switch y := v.(type) {
+					case *ssa.Phi:
+						if IsLoopHeader(y.Block()) {
+							for k, pr := range y.Block().Preds {
+								if y.Block().Dominates(pr) {
+									if kk, isc := ConstInt(y.Edges[k]); !(isc && kk < 0) {
+										carried = true
+									}
+								}
+							}
+						}
+						for _, e := range y.Edges {
+							flow(e)
+						}
+					case *ssa.Convert:
+						flow(y.X)
+					case *ssa.ChangeType:
+						flow(y.X)
+					case *ssa.Extract:
+						flow(y.Tuple)
+					}
+				}
+				flow(x)
+				return !carried && DependsOn(x, func(v ssa.Value) bool {
 					c, isc := v.(*ssa.Call)
 					return isc && strings.HasSuffix(CalleeName(c), "retryHandler.RetryDelay")
 				})
@@ -364,6 +397,16 @@ func coversOperand(tested ssa.Value, send ssa.CallInstruction) bool {
 	if hasSubSlice(tested) {
 		return false
 	}
+	// the flag of one element says nothing about the rest of a batch that is re-sent whole
+	if isElementAccess(tested) {
+		for _, a := range send.Common().Args {
+			if isCmdType(a.Type()) {
+				if _, isSlice := a.Type().Underlying().(*types.Slice); isSlice {
+					return false
+				}
+			}
+		}
+	}
 	tr := cmdValueRoots(tested)
 	for _, a := range send.Common().Args {
 		if isCmdType(a.Type()) {
@@ -376,6 +419,40 @@ func coversOperand(tested ssa.Value, send ssa.CallInstruction) bool {
 		}
 	}
 	return true
+}
+
+// isElementAccess: the value is (the address of / a load of) one element of a slice.
+func isElementAccess(v ssa.Value) bool {
+	for i := 0; i < 6; i++ {
+		switch x := v.(type) {
+		case *ssa.IndexAddr:
+			_, isSlice := x.X.Type().Underlying().(*types.Slice)
+			return isSlice
+		case *ssa.Index:
+			return true
+		case *ssa.UnOp:
+			v = x.X
+		case *ssa.ChangeType:
+			v = x.X
+		case *ssa.Alloc:
+			// a local copy of an element (`cmd := multi[i]`)
+			var src ssa.Value
+			n := 0
+			for _, r := range *x.Referrers() {
+				if st, ok := r.(*ssa.Store); ok && st.Addr == ssa.Value(x) {
+					n++
+					src = st.Val
+				}
+			}
+			if n != 1 {
+				return false
+			}
+			v = src
+		default:
+			return false
+		}
+	}
+	return false
 }
 
 func hasSubSlice(v ssa.Value) bool {
